@@ -75,6 +75,13 @@ def bool_atom(t):
     return (atom, vf, vt) if neg else (atom, vt, vf)
 
 
+def mk_norm(r):
+    """err(ok-preserving(X)) / ok(..) with the wrappers the other atoms are keyed without."""
+    if r[0] == "err":
+        return ("err", P.strip_branch(r[1]))
+    return r
+
+
 def _eq_literals(a, b, positive, depth=0):
     """a == b (or != when not positive) for two literal Option / Result / .. values: a bool constant when the variants
     differ or carry nothing, else the comparison of the payloads; None when a side is not such a literal."""
@@ -660,6 +667,13 @@ class GEA:
                     if r[1][1] in P.STD_SUM_TYPES:
                         vname = norm_variant_name(vname)
                     return [(tg, val) for tg, vs in arms.items() if vname in vs]
+                if atom[1][0] == "err" and atom[1][1][0] == "phi":
+                    # the error of a Result that reached this local from one call on this path (`result => return result` out
+                    # of a retry helper): the test is the test of that call's error, whose variant may already be known.
+                    # Only the local itself is read under the valuation; variables inside the call stay symbolic.
+                    r1 = self.resolve_root(atom[1][1], val)
+                    if r1 != atom[1][1] and r1[0] == "call" and r1[1] != P.FROM_RESIDUAL:
+                        atom = ("VARIANT", ("err", P.strip_branch(r1)))
             if atom[0] == "VARIANT" and atom[1][0] == "phi":
                 # match on a value computed into a local first: resolve which definition reaches here
                 r = self.resolve_root(atom[1], val)
@@ -728,6 +742,17 @@ class GEA:
             t0 = term
             while t0[0] == "unop" and t0[1] == "Not":
                 t0 = t0[2]
+        if t0[0] in ("ok", "err", "field") and P.phi_locals(t0):
+            # a bool carried inside a Result / tuple built on another path (`helper(..)?` with `return Ok(true)` /
+            # `return Ok(false)` in the spliced helper): under the definitions this valuation selects it is a constant
+            r = self.resolve_phis(t0, val)
+            if r[0] == "const" and isinstance(r[2], bool):
+                neg_ = False
+                t1 = term
+                while t1[0] == "unop" and t1[1] == "Not":
+                    neg_, t1 = not neg_, t1[2]
+                term = ("const", None, (not r[2]) if neg_ else r[2], "bool")
+                t0 = term
         if t0[0] == "call" and t0[1] in EQ_CALLEES and len(t0[3]) == 2:
             # `a == b` on Option / Result values of which one was built on another path (`known(id) == Some(vid)` with
             # `known` = "nil means None"): under the definitions this valuation selects both sides are literals, and the
